@@ -12,10 +12,22 @@ TRACE_CFG = "SPECIFICATION TraceSpec\nCHECK_DEADLOCK FALSE\n"
 ALL_FOCUS = ["C01", "C02", "C06", "C13", "C17", "EXC"]
 
 
+def _taint():
+    """Clauses of the open findings of the SCTP cluster (see TraceDataChannel.tla, Taint)."""
+    from .common import load_known
+    return sorted({k["signature"]["clause"] for k in load_known()
+                   if k["status"] == "finding" and k["property"] in ("C01", "C02", "C06", "C13", "C17")
+                   and "clause" in k.get("signature", {})})
+
+
+TAINT = _taint()
+
+
 def _slim(tr, i):
     d = {"id": i, "pr": bool(tr["pr"]), "events": tr["events"], "focus": tr.get("focus") or ALL_FOCUS}
     if tr.get("ref") is not None:
         d["ref"] = tr["ref"]
+    d["taint"] = TAINT
     return d
 
 
